@@ -429,7 +429,7 @@ func (in *inst) rewriteCall(c *astutil.Cursor, call *ast.CallExpr) {
 		switch m {
 		case "RunTLS":
 			st.netCalls++
-			c.Replace(in.call("ServeForever", sel.X, call.Args[0]))
+			c.Replace(in.call("ServeForeverTLS", sel.X, call.Args[0]))
 		case "Run":
 			st.netCalls++
 			var addr ast.Expr = &ast.BasicLit{Kind: token.STRING, Value: `":8080"`}
